@@ -36,6 +36,7 @@ class Config:
         self.point_apps = []
         self.collision_free = False
         self.real_hash_for_concrete = True
+        self.float_precise = False     # int -> float32 conversions as FP terms (slow) instead of UF bytes
         self.log2_apps = []            # (n term, result term) of the log2 stub on this path
 
 
@@ -56,6 +57,7 @@ def uf_bytes(fname, nbytes, *args):
     """nbytes symbolic bytes  f(args..., i), i < nbytes  of an uninterpreted function (deterministic in its
     integer arguments); terms and range constraint are cached across paths"""
     e = eng()
+    e.run_cache['stubbed'] = True
     key = ('uf_bytes', fname, nbytes, tuple(_argkey(a) for a in args))
     hit = e.persist.get(key)
     if hit is None:
@@ -84,12 +86,16 @@ def stub_time():
 
 
 def stub_token_bytes(n=None):
+    eng().run_cache['stubbed'] = True
     CONFIG.alloc_log.append(('token_bytes', n))
     if n is None:
         n = 32
     if isinstance(n, (SymInt, SymBool)):
         if mk_bool(zi(n) < 0):
             raise ValueError('negative argument not allowed')
+        if mk_bool(zi(n) > 40):
+            from .values import SymSized
+            return SymSized(n)          # long random string: only its length is tracked
         n = eng().concretize(zi(n), limit=70, what='token_bytes size')
     if n < 0:
         raise ValueError('negative argument not allowed')
@@ -132,6 +138,8 @@ def stub_floor(x):
         e = eng()
         n = x.n
         maxb = CONFIG.log2_max_bits
+        if n.mag is not None and n.mag + 1 < maxb:
+            maxb = n.mag + 1
         if mk_bool(n.t >= 2 ** maxb):
             e.fail(BoundExceeded, f'log2 of an integer of more than {maxb} bits')
         key = ('log2', n.t.get_id())
@@ -194,6 +202,10 @@ def hash_model(alg, data, outlen):
     e = eng()
     CONFIG.alloc_log.append((alg + '.digest', outlen))
     if isinstance(outlen, (SymInt,)):
+        if mk_bool(outlen.t > 40):
+            from .values import SymSized
+            e.run_cache['stubbed'] = True
+            return SymSized(outlen)      # long digest: only its length is tracked
         outlen = e.concretize(outlen.t, limit=300, what='digest size')
     if isinstance(data, SymByteArray):
         data = mk_bytes(data.b)
@@ -303,6 +315,7 @@ class StubVerifyKey:
         if not is_byteslike(signature) or len(signature) != 64:
             raise nacl.exceptions.ValueError('Verification signature must be created from 64 bytes')
         CONFIG.verify_log.append((self._key, smessage, signature))
+        eng().run_cache['stubbed'] = True
         if CONFIG.sig_mode == 'algebra':
             from . import algebra
             ok = algebra.ed25519_verify(self._key, smessage, signature)
